@@ -228,6 +228,25 @@ class Matcher:
             out = self.absorb_repeat(out)
         return out
 
+    def split_optional_groups(self, els):
+        """alt{A B | } == alt{A | } alt{B | }: an optional group and the same elements made optional one by one under the
+        same condition write the same bytes (two consecutive ``if c:`` blocks merged into one, or the reverse); the matcher
+        pairs optional elements by shape, not by condition, so both spellings are brought to the element-wise one"""
+        out = []
+        for e in els:
+            if e.kind == 'alt' and not e.b and len(e.a) > 1:
+                parts = []
+                for x in e.a:
+                    p = El('alt', a=[x], b=[], val=e.val, op=e.op)
+                    p.conditional = getattr(e, 'conditional', False)
+                    p.extra = dict(getattr(e, 'extra', {}) or {})
+                    parts.append(p)
+                self.c.expanded[id(e)] = parts
+                out.extend(parts)
+            else:
+                out.append(e)
+        return out
+
     def hoist(self, e):
         """alt{X A.. | X B..} == X alt{A.. | B..} for a common leading fixed-shape element X."""
         out = []
@@ -277,6 +296,14 @@ class Matcher:
                 return
             a = A[i] if i < len(A) else None
             b = B[j] if j < len(B) else None
+            if a is not None and b is not None and a.kind == 'alt' and b.kind == 'alt' and not a.b and not b.b:
+                # one side groups two optional elements under one condition, the other makes them optional one by one
+                if len(a.a) > 1 and len(b.a) == 1 and j + 1 < len(B) and B[j + 1].kind == 'alt' and not B[j + 1].b:
+                    A[i:i + 1] = self.split_optional_groups([a])
+                    continue
+                if len(b.a) > 1 and len(a.a) == 1 and i + 1 < len(A) and A[i + 1].kind == 'alt' and not A[i + 1].b:
+                    B[j:j + 1] = self.split_optional_groups([b])
+                    continue
             if a is not None and b is not None:
                 split = False
                 # big-endian split of one integer into two
